@@ -4,6 +4,7 @@ package main
 // specification vocabulary only, discharged without any program state.
 
 import (
+	"fmt"
 	"go/token"
 	"go/types"
 )
@@ -56,3 +57,45 @@ func (c *Ctx) LemmaObligations(names []string) []*Obligation {
 }
 
 var _ = token.NoPos
+
+// InstallAxioms translates every //@ axiom (a closed formula over the
+// specification vocabulary: assumed facts about trusted APIs) into a global
+// SMT axiom. Axioms are listed as assumptions in every evidence file.
+func (c *Ctx) InstallAxioms() error {
+	for _, ax := range c.spec.Axioms {
+		var pkgInfo = c.pkgs[0]
+		for _, p := range c.pkgs {
+			if p.PkgPath == ax.Pkg {
+				pkgInfo = p
+			}
+		}
+		fi := &FuncInfo{Key: "axiom:" + ax.Name, Pkg: pkgInfo}
+		fx := &FuncExec{ctx: c, reg: c.reg, pkg: pkgInfo, info: pkgInfo.TypesInfo, fi: fi,
+			varSort: map[string]string{}, varType: map[string]types.Type{}, counters: map[string]int{}, boxed: map[*types.Var]bool{},
+			captured: map[*types.Var]bool{}, used: map[string]bool{}, uncontr: map[string]bool{}, writes: map[string]bool{}, ghostVar: map[string]string{}}
+		var err error
+		func() {
+			defer func() {
+				if r := recover(); r != nil {
+					if se, ok := r.(specError); ok {
+						err = fmt.Errorf("axiom %s: %s", ax.Name, se.msg)
+						return
+					}
+					panic(r)
+				}
+			}()
+			st := NewState()
+			env := &SpecEnv{fx: fx, cur: st, old: st, bound: map[string]Term{}, pkg: c.pkgByPath(ax.Pkg), where: "axiom " + ax.Name}
+			g := env.Bool(ax.Expr)
+			if len(fx.decls) > 0 {
+				err = fmt.Errorf("axiom %s depends on program state", ax.Name)
+				return
+			}
+			c.reg.axioms = append(c.reg.axioms, "(assert "+g+") ; axiom "+ax.Name)
+		}()
+		if err != nil {
+			return err
+		}
+	}
+	return nil
+}
